@@ -960,6 +960,21 @@ def mergeable_ops_missing_comma(case, outcome, atoms):
 
 
 @explainer
+def more_rebuilds_from_model_level_regrouping(case, outcome, atoms):
+    """F-C03-4 seen through C18: in a batch with RenameModel/DeleteModel the
+    optimiser regroups mutations by model *name*; a mutation written for another
+    holder of a name lands on the renamed model's table and rebuilds it once
+    more than the one-at-a-time run did."""
+    flags, _trail_ = c03_flags(case, outcome)
+    hit = {u for u, fl in flags.items() if 'model_level' in fl}
+    if not hit:
+        return atoms
+    return [a for a in atoms
+            if not (a[0] in ('b_more_rebuilds', 'e_more_rebuilds') and
+                    ('*' in hit or a[1] in hit))]
+
+
+@explainer
 def field_name_reuse_with_delete(case, outcome, atoms):
     """A batch that deletes a field and in which some field name is both vacated
     (DeleteField / RenameField away) and occupied again (AddField / RenameField
@@ -990,11 +1005,42 @@ def eq_is_set_based_diff_is_list_based(case, outcome, atoms):
     unique_together through has_unique_together_changed), diff() compares the
     lists in order: reordered Meta.indexes / Meta.constraints are equal yet have
     a non-empty diff."""
+    import json
+    import re
+    from . import specs as S
     ops = {v['op'] for v in (case.get('variant') or [])}
-    if not ops & {'reverse_indexes', 'reverse_constraints', 'reverse_unique_together'}:
+    if ops & {'reverse_indexes', 'reverse_constraints', 'reverse_unique_together'}:
+        atoms = [a for a in atoms if not (a[0] == 'equal_but_diff_nonempty' and
+                                          str(a[1]).startswith('variant:') and 'reverse_' in a[1])]
+    # the same through an evolution whose only effect on a model is to reorder
+    # index_together / indexes / constraints
+    try:
+        trail = _trail(case)
+    except Exception:
         return atoms
-    return [a for a in atoms if not (a[0] == 'equal_but_diff_nonempty' and
-                                     str(a[1]).startswith('variant:') and 'reverse_' in a[1])]
+    start, final = trail[0], trail[-1]
+    reordered = set()
+    for a_, n, m1 in S.iter_models(final):
+        m0 = S.get_model(start, a_, n)
+        if m0 is None:
+            continue
+        for prop in ('index_together', 'indexes', 'constraints'):
+            k0 = [json.dumps(x, sort_keys=True) for x in m0[prop]]
+            k1 = [json.dumps(x, sort_keys=True) for x in m1[prop]]
+            if k0 != k1 and sorted(k0) == sorted(k1):
+                reordered.add(prop)
+    if not reordered:
+        return atoms
+    out = []
+    for a in atoms:
+        if a[0] == 'equal_but_diff_nonempty' and len(a) > 2:
+            props = set(re.findall(r"Meta property '(\w+)' has changed", str(a[2])))
+            other = [ln for ln in str(a[2]).splitlines()
+                     if ln.strip() and not ln.startswith('In model') and 'Meta property' not in ln]
+            if props and props <= reordered and not other:
+                continue
+        out.append(a)
+    return out
 
 
 @explainer
